@@ -3167,6 +3167,7 @@ class MemRun:
 
     def explore(self, tree, cwd, calls, cons, on_done):
         """calls: [(method, [values])]; on_done(st, results, inner) is invoked per completed path"""
+        from .mirsym.engine import State
         ex = self.ex
         memfs, inner = mk_memfs(tree, cwd)
 
@@ -3175,7 +3176,9 @@ class MemRun:
             if st.panic or st.bound_hit:
                 on_done(st, st.meta["results"] + [("panic" if st.panic else "bound", st.panic or st.bound_hit)], st.meta["inner"], i)
                 return
-            if i >= 0:
+            if i <= -2:
+                i = -2 - i  # a skipped pseudo call
+            elif i >= 0:
                 st.meta["results"] = st.meta["results"] + [("ret", st.retval)]
                 lk = self.lock_of(st)
                 if lk is not None and not lk.free():
@@ -3187,8 +3190,28 @@ class MemRun:
                 on_done(st, st.meta["results"], st.meta["inner"], i)
                 return
             name, vals = calls[i]
-            hook = st.meta.get("before_hook")
-            st2 = ex.start(self.fn(name), [BoxRef(st.meta["memfs"])] + list(vals))
+            if name.startswith("@"):
+                # pseudo call on a handle returned by an earlier call: ("@write"|"@flush"|"@drop", [index of that call, data?])
+                hres = st.meta["results"][vals[0]][1]
+                if not (isinstance(hres, Adt) and hres.ty == "Result" and hres.variant == 0):
+                    st.meta["results"] = st.meta["results"] + [("skip", None)]
+                    st3 = State()
+                    st3.done, st3.pc, st3.meta = True, list(st.pc), dict(st.meta)
+                    st3.meta["i"] = -2 - i  # marks "nothing was executed"
+                    return [st3]
+                handles = dict(st.meta.get("handles") or {})
+                if vals[0] not in handles:
+                    h0 = hres.fields[0]
+                    handles[vals[0]] = h0 if isinstance(h0, (BoxRef, Ref)) else BoxRef(h0)
+                st.meta["handles"] = handles
+                handle = handles[vals[0]]
+                fn = ex.auto.resolve({"@write": "<MemfsFile as Write>::write", "@flush": "<MemfsFile as Write>::flush",
+                                      "@drop": "<MemfsFile as Drop>::drop"}[name])
+                if fn is None:
+                    raise Unsupported("MemfsFile::%s not found in the MIR dump" % name)
+                st2 = ex.start(fn, [handle] + list(vals[1:]))
+            else:
+                st2 = ex.start(self.fn(name), [BoxRef(st.meta["memfs"])] + list(vals))
             st2.pc = list(st.pc)
             st2.meta = dict(st.meta)
             st2.meta["i"] = i
@@ -3196,7 +3219,6 @@ class MemRun:
                 st2.meta["before"] = snapshot_store(ex, st, st.meta["inner"])
             return [st2]
 
-        from .mirsym.engine import State
         st0 = State()
         st0.done = True
         st0.meta = dict(i=-1, results=[], memfs=memfs, inner=inner)
@@ -3649,7 +3671,7 @@ _mk_mem_single("c03_mem_two3", ["symlink", "move_p"], 3, 3, "thorough")
 # ------------------------------------------------------------------------------------------------
 # C06: content round trips through Memfs (write_all/append_all/line helpers/read_all/read_lines)
 # ------------------------------------------------------------------------------------------------
-def run_roundtrip(ctx, prop, max_ops, tag="c06_roundtrip"):
+def run_roundtrip(ctx, prop, max_ops, tag="c06_roundtrip", targets=None, first_ops=None, min_ops=1):
     import itertools
     from .mirsym.values import bv_bin
     t0 = time.time()
@@ -3657,15 +3679,16 @@ def run_roundtrip(ctx, prop, max_ops, tag="c06_roundtrip"):
     ex, ob, solver = run.ex, run.ob, run.solver
     unit = dict(status="pass", failures=[])
     NL = BV(32, False, 10)
-    op_alphabet = ["WA0", "WA1", "WA2", "AA0", "AA1", "AA2", "AL", "WL", "ALS"]
+    op_alphabet = ["WA0", "WA1", "WA2", "AA0", "AA1", "AA2", "AL", "WL", "ALS", "HW0", "HW1", "HA1"]
     shapes = []
-    for n in range(1, max_ops + 1):
-        shapes += list(itertools.product(op_alphabet, repeat=n))
-    for target, initial in (("/b", "yz"), ("/n", None)):
+    for n in range(min_ops, max_ops + 1):
+        shapes += [sh for sh in itertools.product(op_alphabet, repeat=n) if first_ops is None or sh[0] in first_ops]
+    for target, initial in (targets or (("/b", "yz"), ("/n", None))):
         for shape in shapes:
             sid = "%s_%s_%s" % (tag, target[1:], "".join(shape))
             calls, cons, model, groups = [], [], [BV(32, False, ord(c)) for c in (initial or "")], {}
             defined = initial is not None
+            opcalls = []
             for oi, op in enumerate(shape):
                 def fresh(n, no_nl, nonempty=False, oi=oi):
                     c, cc = sym_text(solver, "%s_%d_%d" % (sid, oi, len(groups)), n, ascii_only=True)
@@ -3676,6 +3699,17 @@ def run_roundtrip(ctx, prop, max_ops, tag="c06_roundtrip"):
                         cons.extend("(not (= %s #x0000000d))" % x.v for x in c)
                     groups["op%d_%d" % (oi, len(groups))] = c
                     return c
+                if op[0] == "H":
+                    # handle based: open, write the bytes through the handle, drop it (drop pushes the buffer to the filesystem)
+                    d = fresh(int(op[2]), False)
+                    k = len(calls)
+                    calls.append(("write" if op[1] == "W" else "append", [BoxRef(M.SStr(T_(target)))]))
+                    calls.append(("@write", [k, BoxRef(M.VecM([BV(8, False, "((_ extract 7 0) %s)" % c.smt()) for c in d]))]))
+                    calls.append(("@drop", [k]))
+                    opcalls.append((k, k + 2))
+                    model, defined = (list(d) if op[1] == "W" else model + list(d)), True
+                    continue
+                opcalls.append((len(calls), len(calls)))
                 if op.startswith("WA"):
                     d = fresh(int(op[2]), False)
                     calls.append(("write_all", [BoxRef(M.SStr(T_(target))), BoxRef(M.SStr(d))]))
@@ -3700,7 +3734,7 @@ def run_roundtrip(ctx, prop, max_ops, tag="c06_roundtrip"):
             calls.append(("read_lines", [BoxRef(M.SStr(T_(target)))]))
             calls.append(("read_all", [BoxRef(M.SStr(T_("/a/b")))]))
 
-            def on_done(st, results, inner, i, shape=shape, model=model, groups=groups, target=target, ncalls=len(calls)):
+            def on_done(st, results, inner, i, shape=shape, model=model, groups=groups, target=target, ncalls=len(calls), opcalls=opcalls):
                 cf = lambda extra: text_model(ex, st, groups, extra)
                 bad = [r for r in results if r[0] in ("panic", "bound")]
                 if bad:
@@ -3708,9 +3742,14 @@ def run_roundtrip(ctx, prop, max_ops, tag="c06_roundtrip"):
                     ob.failures.append(dict(kind="panic" if bad[0][0] == "panic" else "bound", where="Memfs", cex=cf([]), shape=shape, target=target,
                                             desc="C12: content operation panics/loops: %s" % bad[0][1]))
                     return
-                for k, (kind, rv) in enumerate(results[:len(shape)]):
-                    ob.prove(ex, st, "C06: %s on %s succeeds (%s)" % (shape[k], target, "".join(shape)), B(isinstance(rv, Adt) and rv.variant == 0), cf) or \
-                        ob.failures[-1].update(shape=shape, target=target, where="Memfs")
+                for k, (a, b) in enumerate(opcalls):
+                    for kind, rv in results[a:b]:  # open / write (the drop returns nothing)
+                        ob.prove(ex, st, "C06: %s on %s succeeds (%s)" % (shape[k], target, "".join(shape)),
+                                 B(kind == "ret" and isinstance(rv, Adt) and rv.variant == 0), cf) or ob.failures[-1].update(shape=shape, target=target, where="Memfs")
+                    if b == a:
+                        kind, rv = results[a]
+                        ob.prove(ex, st, "C06: %s on %s succeeds (%s)" % (shape[k], target, "".join(shape)), B(isinstance(rv, Adt) and rv.variant == 0), cf) or \
+                            ob.failures[-1].update(shape=shape, target=target, where="Memfs")
                 ra, rl, other = results[-3][1], results[-2][1], results[-1][1]
                 if not (isinstance(ra, Adt) and ra.variant == 0):
                     ob.total += 1
@@ -3761,7 +3800,12 @@ def run_roundtrip(ctx, prop, max_ops, tag="c06_roundtrip"):
         data = [v for k, v in sorted(f["cex"].items(), key=lambda kv: (int(kv[0][2:].split("_")[0]), int(kv[0].split("_")[1])))]
         body, model, di = "", (b"yz".decode() if f["target"] == "/b" else ""), 0
         for op in f["shape"]:
-            if op.startswith("WA"):
+            if op[0] == "H":
+                d = data[di]; di += 1
+                body += '    { let mut h = v.%s(%s).unwrap(); assert_eq!(h.write(%s.as_bytes()).unwrap(), %d); }\n' % (
+                    "write" if op[1] == "W" else "append", rs_str(f["target"]), rs_str(d), len(d.encode()))
+                model = d if op[1] == "W" else model + d
+            elif op.startswith("WA"):
                 d = data[di]; di += 1
                 body += '    v.write_all(%s, %s).unwrap();\n' % (rs_str(f["target"]), rs_str(d)); model = d
             elif op.startswith("AA"):
@@ -3797,17 +3841,26 @@ fn replay_roundtrip() {
     return finish(unit, ex, solver, ob, t0, dict(models_used="Memfs executed from MIR; byte-vector reference model; BufRead::lines modelled over the handle's bytes"))
 
 
-@job("c06_roundtrip_k2", ["C06", "C12"], "quick",
-     functions=["Memfs::{write_all,append_all,append_line,write_lines,append_lines,read_all,read_lines,write,append,read} and MemfsFile::{write,flush,sync,drop,clone,seek} (real MIR)"],
-     bounds="every sequence of 1..=2 operations from {write_all/append_all of 0,1,2 ASCII bytes, append_line, write_lines, append_lines with non-empty 1-2 char lines} on an existing file and on a new file; data symbolic")
-def c06_quick(ctx, prop):
-    return run_roundtrip(ctx, prop, 2)
+C06_FUNCS = ["Memfs::{write_all,append_all,append_line,write_lines,append_lines,read_all,read_lines,write,append,read} and MemfsFile::{write,flush,sync,drop,clone,seek} (real MIR)"]
+C06_OPS = ("{write_all/append_all of 0,1,2 ASCII bytes, append_line, write_lines, append_lines with non-empty 1-2 char lines, "
+           "handle-based write of 0|1 bytes and append of 1 byte (open, Write::write, drop)}")
 
 
-@job("c06_roundtrip_k3", ["C06", "C12"], "thorough",
-     functions=["same as c06_roundtrip_k2"], bounds="every sequence of 3 operations (9^3 shapes x 2 targets)")
-def c06_thorough(ctx, prop):
-    return run_roundtrip(ctx, prop, 3, tag="c06_roundtrip_k3")
+def _mk_c06(name, tier, target, kmin, kmax, first_ops=None):
+    @job(name, ["C06", "C12"], tier, functions=C06_FUNCS,
+         bounds="every sequence of %d..=%d operations from %s%s on %s; data symbolic" % (
+             kmin, kmax, C06_OPS, " starting with one of %s" % (first_ops,) if first_ops else "",
+             "the existing file /b ('yz')" if target[0] == "/b" else "a file /n that does not exist yet"))
+    def f(ctx, prop):
+        return run_roundtrip(ctx, prop, kmax, tag=name, targets=(target,), first_ops=first_ops, min_ops=kmin)
+    return f
+
+
+_mk_c06("c06_roundtrip_k2_b", "quick", ("/b", "yz"), 1, 2)
+_mk_c06("c06_roundtrip_k2_n", "quick", ("/n", None), 1, 2)
+for _t, _tn in ((("/b", "yz"), "b"), (("/n", None), "n")):
+    for _fo in (("WA0", "WA1", "WA2"), ("AA0", "AA1", "AA2"), ("AL", "WL", "ALS"), ("HW0", "HW1", "HA1")):
+        _mk_c06("c06_roundtrip_k3_%s_%s" % (_tn, _fo[0].lower()), "thorough", _t, 3, 3, _fo)
 
 
 # ------------------------------------------------------------------------------------------------
